@@ -5,7 +5,9 @@ CONSTANTS
   MaxStar = 2
   MaxTD = 2
   GenSigs = TRUE
+  WithUnknown <- UnknownOn
 INVARIANT SigsAgree
 INVARIANT BindsIffWellDefined
 INVARIANT DefaultsRelax
 INVARIANT ArityMonotone
+INVARIANT QuantifiedAgrees
